@@ -114,10 +114,11 @@ def _brief(cfg):
 def wl_C07(rng, w, cfg, index):
     cfg = dict(cfg)
     wts = dict(cfg.get('weights') or {})
-    for k in ('remove', 'replace', 'replace_other', 'fwd', 'dot_none', 'remove_foreign', 'to_string_ic', 'check_ic', 'readd',
+    for k in ('remove', 'replace', 'replace_other', 'dot_none', 'remove_foreign', 'to_string_ic', 'check_ic', 'readd',
               'remove_stale'):
         wts[k] = 0.0
     wts['add_bad'] = 2.5
+    wts['fwd'] = 1.2
     cfg['weights'] = wts
     cfg['p_ic'] = 0.0
     cfg['shape'] = rng.choice(['valid_permuted', 'valid_perturbed', 'uniform', 'fill_max', 'alternate_choice', 'uniform'])
@@ -643,7 +644,42 @@ def wl_C18(rng, w, cfg, index):
     model = spec.model_for_element(elem)
 
     def program():
-        mode = rng.choice(['free', 'twin', 'nested'])
+        mode = rng.choice(['free', 'twin', 'nested', 'transplant'])
+        if mode == 'transplant':
+            # children that lived in a checked element (added, then replaced out / removed) move into an
+            # unchecked one, where every structural operation must still succeed
+            yield {'op': 'NEW', 'a': 0, 'doc': 'dC', 'c': kit.rootspec(elem, True)}
+            yield {'op': 'NEW', 'a': 1, 'doc': 'dU', 'c': dict(kit.rootspec(rng.choice(spec.ELEMENT_CONTENT_ELEMENTS), False), xsd_check=False)}
+            C, U = w.docs.get('dC'), w.docs.get('dU')
+            if C is None or U is None:
+                return
+            for _ in range(rng.randint(2, 6)):
+                comp = kit.compatible(C, model.alpha)
+                if comp and rng.random() < 0.6:
+                    yield {'op': 'ADD', 'a': 0, 'p': ['dC'], 'c': kit.childspec(rng.choice(comp), opaque=rng.random() < 0.7)}
+                elif C.children:
+                    i = rng.randrange(len(C.children))
+                    if rng.random() < 0.6:
+                        yield {'op': 'REPLACE', 'a': 0, 'p': ['dC'], 'i': i, 'c': kit.childspec(C.children[i].name, opaque=True),
+                               'by': rng.choice(['ref', 'pred'])}
+                    else:
+                        yield {'op': 'REMOVE', 'a': 0, 'p': ['dC'], 'i': i}
+            for _ in range(rng.randint(2, 7)):
+                det = [k for k, x in enumerate(w.removed) if x.parent is None]
+                r = rng.random()
+                if det and r < 0.45:
+                    yield {'op': 'ADD', 'a': 1, 'p': ['dU'], 'reuse': rng.choice(det), 'c': {'name': '?'}}
+                elif U.children and r < 0.7:
+                    yield {'op': 'REMOVE', 'a': 1, 'p': ['dU'], 'i': rng.randrange(len(U.children))}
+                elif U.children and r < 0.8:
+                    yield {'op': 'REPLACE', 'a': 1, 'p': ['dU'], 'i': rng.randrange(len(U.children)),
+                           'c': kit.childspec(rng.choice(spec.ALL_ELEMENTS), opaque=True)}
+                elif r < 0.9:
+                    yield {'op': 'ADD', 'a': 1, 'p': ['dU'], 'c': kit.childspec(rng.choice(spec.ALL_ELEMENTS), opaque=True)}
+                else:
+                    yield {'op': 'TO_STRING', 'a': 1, 'p': ['dU'], 'ic': False}
+            yield {'op': 'TO_STRING', 'a': 1, 'p': ['dU'], 'ic': False}
+            return
         if mode == 'twin':
             # same children in a schema-valid order to an unchecked element and to a checked twin
             word = model.sample_word(rng, maxlen=rng.randint(1, 7))
@@ -891,7 +927,7 @@ def wl_C20(rng, w, cfg, index):
         if root is None:
             return
         m = spec.model_for_element(elem)
-        word = m.sample_word(rng, maxlen=rng.randint(1, 5))
+        word = m.sample_word(rng, maxlen=rng.randint(1, 2 if cfg.get('small') else 5))
         for x in word:
             yield {'op': 'ADD', 'a': 0, 'p': [doc], 'c': kit.childspec(x)}
         at = kit.valid_attrs(elem, 2)
@@ -968,3 +1004,80 @@ def wl_C19(rng, w, cfg, index):
             yield from prog
         return with_closed(), info
     return prog, info
+
+
+def _attr_kinds():
+    """(element, attribute, kind) for every declared pair the pinned library can be given; kind = simple-type kind."""
+    global _AK
+    try:
+        return _AK
+    except NameError:
+        pass
+    out = []
+    for n in spec.ALL_ELEMENTS:
+        for a, d in spec.attributes_of_element(n).items():
+            if gen._attr_usable(a) and a not in ('xml:lang', 'source'):
+                out.append((n, a, spec.simple_info(d['type'])['kind'], d['type'], d['required']))
+    _AK = out
+    return out
+
+
+def wl_C20probe(rng, w, cfg, index):
+    """Thread program that touches many lazily initialised per-type tables: standalone elements of many classes,
+    each given attributes of different simple-type kinds (every member type of the union types, enumerations,
+    patterns, numbers, tokens), validated and serialised; some lack a required attribute on purpose (the refusal is
+    part of the expected result); extension types, simple content, a deep copy."""
+    ak = _attr_kinds()
+    doc0 = cfg.get('doc', 'a')
+
+    def program():
+        chosen = []
+        kinds = sorted({k for (_n, _a, k, _t, _r) in ak})
+        unions = [x for x in ak if x[2] == 'union']
+        ext = [x for x in ak if x[0] in ('heel', 'toe', 'strong-accent', 'mordent', 'inverted-mordent', 'metronome-tuplet')]
+        req = [x for x in ak if x[4]]
+        if cfg.get('small'):
+            # quick tier: few classes, so that every first-use window of the program can be swept completely
+            chosen = [rng.choice(unions), rng.choice(req)] + ([rng.choice(ext)] if ext and rng.random() < 0.5 else [])
+            for k in rng.sample(kinds, 3):
+                chosen.append(rng.choice([x for x in ak if x[2] == k]))
+        else:
+            for k in kinds:      # one of each simple-type kind first
+                chosen.append(rng.choice([x for x in ak if x[2] == k]))
+            for _ in range(cfg.get('extra_elements', 6)):
+                chosen.append(rng.choice(ak))
+            chosen += [rng.choice(unions), rng.choice(unions)] + ([rng.choice(ext)] if ext else []) + [rng.choice(req), rng.choice(req)]
+        rng.shuffle(chosen)
+        for j, (n, a, k, t, r) in enumerate(chosen):
+            doc = '%s%d' % (doc0, j)
+            g, b = spec.exemplars(t)
+            d = spec.attributes_of_element(n)[a]
+            if d.get('fixed') is not None:
+                g = [d['fixed']]
+            if not g:
+                continue
+            vals = [rng.choice(g)]
+            if k == 'union':
+                nums = [x for x in g if isinstance(x, (int, float))]
+                strs = [x for x in g if isinstance(x, str)]
+                vals = ([rng.choice(nums)] if nums else []) + ([rng.choice(strs)] if strs else [])
+            attrs = {}
+            leave_out_required = r and rng.random() < 0.5
+            if not leave_out_required:
+                attrs[spec.py_attr_name(a)] = vals[0]
+            cs = {'name': n, 'value': gen.default_value(n), 'attrs': attrs, 'xsd_check': True}
+            yield {'op': 'NEW', 'a': 0, 'doc': doc, 'c': cs}
+            if doc not in w.docs:
+                continue
+            for v in vals[1:]:
+                yield {'op': 'ATTR_SET', 'a': 0, 'p': [doc], 'name': spec.py_attr_name(a), 'value': v}
+            if b and rng.random() < 0.3:
+                yield {'op': 'ATTR_SET', 'a': 0, 'p': [doc], 'name': spec.py_attr_name(a), 'value': rng.choice(b)}
+            m = spec.model_for_element(n)
+            if m is not None:
+                for x in (m.missing([]) or [])[:4]:
+                    yield {'op': 'ADD', 'a': 0, 'p': [doc], 'c': gen.default_childspec(x)}
+            yield {'op': 'TO_STRING', 'a': 0, 'p': [doc], 'ic': False}
+            if rng.random() < 0.15:
+                yield {'op': 'DEEPCOPY', 'a': 0, 'p': [doc], 'doc': doc + 'c'}
+    return program(), {'shape': 'lazy-table probes'}
